@@ -81,13 +81,18 @@ def make_jobs(tier, seed, scale, avoid, unreachable):
             add("a64lists", fl + i, min(25, nl - i))
         add("x86lists", rng.below(1 << 30), int(60 * scale) or 1)
     else:
-        nx64, chunk = int(120000 * scale), 500
+        nx64, chunk = int(80000 * scale), 500
         first = rng.below(1 << 30)
         for i in range(0, nx64, chunk):
             add("x64", first + i, min(chunk, nx64 - i), ["--shrink", "400"])
-        tot = int(3 * ns * min(1.0, scale))
-        for i in range(0, tot, 400):
-            add("shapes", i, min(400, tot - i), ["--shrink", "200"])
+        # every CFG shape with <= 5 body blocks once (tiny profile), seeded samples with the medium / pressure profiles
+        tot = int(ns * min(1.0, scale))
+        for i in range(0, tot, 1000):
+            add("shapes", i, min(1000, tot - i), ["--shrink", "200"])
+        for k in range(int(32 * scale) or 1):
+            add("shapes", ns + rng.below(ns - 500), 500, ["--shrink", "200"])
+        for k in range(int(32 * scale) or 1):
+            add("shapes", 2 * ns + rng.below(ns - 500), 500, ["--shrink", "200"])
         nx86 = int(20000 * scale)
         f86 = rng.below(1 << 30)
         for i in range(0, nx86, 250):
